@@ -289,6 +289,8 @@ def op_line(module, scn, op):
         return "D %d %s X%s I" % (op["slot"], op["syn"], bytes(op["bytes"]).hex())
     if a == "BuildZero":
         return "BZ %d" % op["slot"]
+    if a == "Adopt":
+        return "NOP Adopt"
     if a == "StartDecode":
         return "SD %d %s X%s" % (op["slot"], op["syn"], bytes(op["bytes"]).hex())
     if a == "DecodeCall":
